@@ -45,6 +45,7 @@ type detPool struct {
 	Committed bool   `json:"committed"`
 	Heavy     bool   `json:"heavy"`
 	Lang      string `json:"lang"`
+	Name      string `json:"name"`
 }
 
 type detFileSum struct {
@@ -212,7 +213,7 @@ func prepareDet(cfg *config) ([]string, []string, map[string]any, error) {
 	}
 	sort.Strings(sites)
 	for i := range pool {
-		pool[i].Lang = grammarLang(pool[i].Path)
+		pool[i].Lang, pool[i].Name = grammarLang(pool[i].Path)
 	}
 	setup := &detSetup{Pool: pool, Sites: sites, Refs: map[string]*detRef{}}
 	setupPath := filepath.Join(cfg.scratch, "detsim-setup.json")
@@ -266,16 +267,16 @@ func prepareDet(cfg *config) ([]string, []string, map[string]any, error) {
 	return []string{bin, "-isolate"}, []string{"ZZ_DETSIM_SETUP=" + setupPath}, info, nil
 }
 
-var langHeaderRe = regexp.MustCompile(`(?m)^language\s+\S+\((\w+)\)`)
+var langHeaderRe = regexp.MustCompile(`(?m)^language\s+(\S+?)\((\w+)\)`)
 
-// grammarLang reads the target language from the grammar's header line.
-func grammarLang(path string) string {
+// grammarLang reads the target language and the language name from the grammar's header.
+func grammarLang(path string) (lang, name string) {
 	b, err := os.ReadFile(path)
 	if err != nil {
-		return "?"
+		return "?", "?"
 	}
 	if m := langHeaderRe.FindSubmatch(b); m != nil {
-		return string(m[1])
+		return string(m[2]), string(m[1])
 	}
-	return "none"
+	return "none", "none"
 }
